@@ -81,6 +81,10 @@ class RngCtl:
 
     def choice(self, a, size=None, replace=True, p=None):
         n = a if isinstance(a, int) else len(a)
+        if p is not None:
+            # numpy validates the weights before sampling
+            if abs(math.fsum(float(x) for x in p) - 1.0) > 1.4901161193847656e-08:
+                raise ValueError("probabilities do not sum to 1")
         if self.choice_hook is not None:
             i = self.choice_hook(n, p)
         else:
@@ -175,7 +179,8 @@ def make_partition_class(kind, K=3, rng=None, observer=None, pre_observer=None):
                         dim = v
                     elif nm == "uniform":
                         pts.append(v)
-                call = {"parent": getattr(parent, "_vid", None), "newlayer": bool(newlayer),
+                call = {"log_range": (mark, len(rng.log) if rng is not None else 0),
+                        "parent": getattr(parent, "_vid", None), "newlayer": bool(newlayer),
                         "dim": dim, "pts": pts, "created": [c._vid for c in created],
                         "was_leaf": None}
                 self._calls.append(call)
